@@ -50,6 +50,9 @@ func buildSaveDoc(kind string) *document.Document {
 		for i := 0; i < 3; i++ {
 			d.AddImageFromData(noisePNG(i+1, 110), "n.png", document.ImageFormatPNG, 110, 110, nil)
 		}
+		// one part far larger than the compressor's window (64 KiB): only then does a failing write(2) come back from
+		// the Write of the part itself - for smaller parts the compressor holds everything until the entry is closed
+		d.AddImageFromData(noisePNG(9, 260), "big.png", document.ImageFormatPNG, 260, 260, nil)
 		for i := 0; i < 60; i++ {
 			d.AddParagraph(fmt.Sprintf("large document paragraph %d", i))
 		}
@@ -114,7 +117,7 @@ func runC05(cfg *runCfg) error {
 		return err
 	}
 	defer os.RemoveAll(dir)
-	res.Rule = "fault enumeration on the real Save: RLIMIT_FSIZE (SIGXFSZ ignored) makes write(2) fail at byte offset k of the output file; every offset of the tiny document, a stride over the medium one, sampled offsets plus all buffer boundaries of the large one (> 64 KiB of incompressible images); plus target-path cases (nested new directories, existing smaller/larger package, existing larger junk, directory as target, /dev/full, parent is a file, non-ASCII name); non-trivial = fault strictly inside the file or a pre-existing target; distinct by (document, offset / path kind)"
+	res.Rule = "fault enumeration on the real Save: RLIMIT_FSIZE (SIGXFSZ ignored) makes write(2) fail at byte offset k of the output file; every offset of the tiny document, a stride over the medium one, sampled offsets plus all buffer boundaries of the large one (incompressible images, one of them several times the compressor's 64 KiB window so that write failures surface inside the Write of a part); plus target-path cases (nested new directories, existing smaller/larger package, existing larger junk, directory as target, /dev/full, parent is a file, non-ASCII name); non-trivial = fault strictly inside the file or a pre-existing target; distinct by (document, offset / path kind)"
 	var coqCases []string
 	dist := newDistinct()
 	addCase := func(c saveCase) {
